@@ -893,7 +893,8 @@ impl rustc_driver::Callbacks for Cb {
                         v.push(("trait", s(dps(tcx, tr.def_id))));
                         v.push(("trait_full", s(with_no_trimmed_paths!(format!("{}", tr)))));
                         let h = tcx.impl_trait_header(did);
-                        if !h.safety.is_safe() {
+                        // (`#[derive(Clone, Copy)]` expands to an `unsafe impl TrivialClone`: compiler-written, not code of the crate)
+                        if !h.safety.is_safe() && !tcx.is_automatically_derived(did) {
                             let (f, l, _) = span_info(tcx, tcx.def_span(did));
                             unsafes.push(J::Obj(vec![("what", s("unsafe impl")), ("file", s(f)), ("line", J::Num(l as i128))]));
                         }
